@@ -280,4 +280,221 @@ theorem crun_writes (c : Client) (ms : List Bytes) :
     rw [ih]
     simp [List.append_assoc]
 
+theorem rel_fresh (c : Client) (hb : c.buf = []) : Rel c [] [] :=
+  ⟨by simp, [], by simp [joinLines, hb], by simp, Or.inl rfl⟩
+
+/-- `n` reads on a buffer holding the encodings of `rs` (stream still open): the first `n` of them, then timeouts -/
+theorem crun_reads (c : Client) (he : c.eof = false) (rs : List Bytes) (hb : c.buf = (rs.map enc).flatten) (n : Nat) :
+    (crun c (List.replicate n .read)).2 =
+      (rs.take n).map (fun r => Obs.res (.msg r)) ++ List.replicate (n - rs.length) (.res .pending) := by
+  induction n generalizing c rs with
+  | zero => simp [crun]
+  | succ n ih =>
+    obtain ⟨buf, eof, out, closed, closes⟩ := c
+    simp only at he hb; subst he hb
+    cases rs with
+    | nil =>
+      have := ih { buf := [], eof := false, out := out, closed := closed, closes := closes } rfl [] rfl
+      simp only [List.replicate_succ, crun, cstep, readLine, cutLine, List.map_nil, List.flatten_nil] at this ⊢
+      simp [this, List.replicate_succ]
+    | cons r rs =>
+      have h1 : readLine ((List.map enc (r :: rs)).flatten) false = (.msg r, (rs.map enc).flatten) := by
+        simp only [List.map_cons, List.flatten_cons, readLine, enc]
+        rw [List.append_assoc, List.singleton_append, cutLine_line _ _ (nl_not_mem_hexB r)]
+        simp [decodeLine, strip_hexB, unhexB_hexB_append]
+      have := ih { buf := (rs.map enc).flatten, eof := false, out := out, closed := closed, closes := closes } rfl rs rfl
+      simp only [List.replicate_succ, crun, cstep, h1]
+      simp [this]
+
+theorem cutBy_flatten (ks : List Nat) (b : Bytes) : (cutBy ks b).flatten = b := by
+  induction ks generalizing b with
+  | nil => simp [cutBy]
+  | cons k ks ih =>
+    simp only [cutBy]
+    split
+    · simp
+    · simp [ih]
+
+/-! ### server loop -/
+
+variable {σ : Type}
+
+theorem srvLoop_none (h : σ → Bytes → σ × HRes) (st : σ) {buf : Bytes} (eof : Bool) (hc : cutLine buf = none) :
+    srvLoop h st buf eof =
+      if eof then (st, [], if buf = [] then .eofClean else .eofTail, []) else (st, [], .waiting, buf) := by
+  rw [srvLoop.eq_def]; split
+  · rfl
+  · rename_i h'; rw [hc] at h'; cases h'
+
+theorem srvLoop_some (h : σ → Bytes → σ × HRes) (st : σ) {buf l rest : Bytes} (eof : Bool)
+    (hc : cutLine buf = some (l, rest)) :
+    srvLoop h st buf eof =
+      match decodeLine l with
+      | .msg m =>
+        match (h st m).2 with
+        | .raised => ((h st m).1, [], .handlerRaised, rest)
+        | r => ((srvLoop h (h st m).1 rest eof).1, replyBytes r ++ (srvLoop h (h st m).1 rest eof).2.1,
+                (srvLoop h (h st m).1 rest eof).2.2.1, (srvLoop h (h st m).1 rest eof).2.2.2)
+      | _ => (st, [], .undecodable, rest) := by
+  rw [srvLoop.eq_def]; split
+  · rename_i h'; rw [hc] at h'; cases h'
+  · rename_i l' rest' h'; rw [hc] at h'; cases h'; rfl
+
+/-- a good line: decodes to `m`, the handler does not raise -/
+theorem srvLoop_good (h : σ → Bytes → σ × HRes) (st : σ) (l rest : Bytes) (eof : Bool) (m : Bytes)
+    (hl : NL ∉ l) (hd : decodeLine l = .msg m) (hr : (h st m).2 ≠ .raised) :
+    srvLoop h st (l ++ NL :: rest) eof =
+      ((srvLoop h (h st m).1 rest eof).1, replyBytes (h st m).2 ++ (srvLoop h (h st m).1 rest eof).2.1,
+       (srvLoop h (h st m).1 rest eof).2.2.1, (srvLoop h (h st m).1 rest eof).2.2.2) := by
+  rw [srvLoop_some h st eof (cutLine_line l rest hl), hd]
+  cases hres : (h st m).2 <;> simp_all
+
+theorem srvLoop_bad (h : σ → Bytes → σ × HRes) (st : σ) (l rest : Bytes) (eof : Bool)
+    (hl : NL ∉ l) (hd : decodeLine l = .bad) :
+    srvLoop h st (l ++ NL :: rest) eof = (st, [], .undecodable, rest) := by
+  rw [srvLoop_some h st eof (cutLine_line l rest hl), hd]
+
+theorem srvLoop_raise (h : σ → Bytes → σ × HRes) (st : σ) (l rest : Bytes) (eof : Bool) (m : Bytes)
+    (hl : NL ∉ l) (hd : decodeLine l = .msg m) (hr : (h st m).2 = .raised) :
+    srvLoop h st (l ++ NL :: rest) eof = ((h st m).1, [], .handlerRaised, rest) := by
+  rw [srvLoop_some h st eof (cutLine_line l rest hl), hd]
+  simp only [hr]
+
+/-- the handler's results for a sequence of requests, threading its state -/
+def answersX (h : σ → Bytes → σ × HRes) : σ → List Bytes → σ × List HRes
+  | s, [] => (s, [])
+  | s, m :: ms => ((answersX h (h s m).1 ms).1, (h s m).2 :: (answersX h (h s m).1 ms).2)
+
+/-- the replies among them -/
+def repliesOf (rs : List HRes) : List Bytes := rs.filterMap (fun | .reply r => some r | _ => none)
+
+theorem flatten_replyBytes (rs : List HRes) : (rs.map replyBytes).flatten = ((repliesOf rs).map enc).flatten := by
+  induction rs with
+  | nil => rfl
+  | cons r rs ih => cases r <;> simp_all [replyBytes, repliesOf]
+
+/-- lines `ls` that decode to the requests `ms`, none of which makes the handler raise, followed by `rest`:
+    the loop answers them in order and carries on with `rest` -/
+theorem srvLoop_lines (h : σ → Bytes → σ × HRes) (st : σ) (ls ms : List Bytes) (rest : Bytes) (eof : Bool)
+    (hl : ∀ l ∈ ls, NL ∉ l) (hd : ls.map decodeLine = ms.map ReadRes.msg)
+    (hr : ∀ r ∈ (answersX h st ms).2, r ≠ .raised) :
+    srvLoop h st (joinLines ls ++ rest) eof =
+      ((srvLoop h (answersX h st ms).1 rest eof).1,
+       ((answersX h st ms).2.map replyBytes).flatten ++ (srvLoop h (answersX h st ms).1 rest eof).2.1,
+       (srvLoop h (answersX h st ms).1 rest eof).2.2.1, (srvLoop h (answersX h st ms).1 rest eof).2.2.2) := by
+  induction ls generalizing st ms with
+  | nil =>
+    cases ms with
+    | nil => simp [joinLines, answersX]
+    | cons _ _ => simp at hd
+  | cons l ls ih =>
+    cases ms with
+    | nil => simp at hd
+    | cons m ms =>
+      simp only [List.map_cons, List.cons.injEq] at hd
+      have e : joinLines (l :: ls) ++ rest = l ++ NL :: (joinLines ls ++ rest) := by
+        simp [joinLines, List.append_assoc]
+      have hr0 : (h st m).2 ≠ .raised := hr _ (by simp [answersX])
+      rw [e, srvLoop_good h st l _ eof m (hl l (by simp)) hd.1 hr0,
+        ih (h st m).1 ms (fun x hx => hl x (by simp [hx])) hd.2 (fun r hx => hr r (by simp [answersX, hx]))]
+      simp [answersX, List.append_assoc]
+
+/-- feeding more bytes to a loop that has run on `a`: if it was blocked it carries on from where it was,
+    if it had ended the bytes stay unread -/
+theorem srvLoop_append (h : σ → Bytes → σ × HRes) (st : σ) (a b : Bytes) (eof : Bool) :
+    srvLoop h st (a ++ b) eof =
+      if (srvLoop h st a false).2.2.1 = .waiting then
+        ((srvLoop h (srvLoop h st a false).1 ((srvLoop h st a false).2.2.2 ++ b) eof).1,
+         (srvLoop h st a false).2.1 ++ (srvLoop h (srvLoop h st a false).1 ((srvLoop h st a false).2.2.2 ++ b) eof).2.1,
+         (srvLoop h (srvLoop h st a false).1 ((srvLoop h st a false).2.2.2 ++ b) eof).2.2.1,
+         (srvLoop h (srvLoop h st a false).1 ((srvLoop h st a false).2.2.2 ++ b) eof).2.2.2)
+      else ((srvLoop h st a false).1, (srvLoop h st a false).2.1, (srvLoop h st a false).2.2.1,
+            (srvLoop h st a false).2.2.2 ++ b) := by
+  generalize hn : a.length = n
+  induction n using Nat.strongRecOn generalizing a st with
+  | _ n ih =>
+    cases hc : cutLine a with
+    | none => simp [srvLoop_none h st false hc]
+    | some p =>
+      obtain ⟨l, rest⟩ := p
+      have hlt := cutLine_lt hc
+      rw [srvLoop_some h st eof (cutLine_mono b hc), srvLoop_some h st false hc]
+      cases hd : decodeLine l with
+      | msg m =>
+        simp only
+        cases hres : (h st m).2 with
+        | raised => simp
+        | reply r =>
+          simp only
+          rw [ih _ (by omega) (h st m).1 rest rfl]
+          split <;> simp_all [List.append_assoc]
+        | silent =>
+          simp only
+          rw [ih _ (by omega) (h st m).1 rest rfl]
+          split <;> simp_all [List.append_assoc]
+      | eos => simp
+      | pending => simp
+      | bad => simp
+
+/-- the state of the connection after the loop has run to `t` -/
+def Srv.after (s : Srv σ) (t : σ × Bytes × SrvEnd × Bytes) : Srv σ :=
+  { st := t.1, buf := t.2.2.2, out := s.out ++ t.2.1, fin := t.2.2.1 }
+
+theorem srvLoop_waiting_left (h : σ → Bytes → σ × HRes) (st : σ) (buf : Bytes)
+    (hw : (srvLoop h st buf false).2.2.1 = .waiting) : NL ∉ (srvLoop h st buf false).2.2.2 := by
+  generalize hn : buf.length = n
+  induction n using Nat.strongRecOn generalizing buf st with
+  | _ n ih =>
+    cases hc : cutLine buf with
+    | none =>
+      rw [srvLoop_none h st false hc]
+      simpa using cutLine_none_iff.mp hc
+    | some p =>
+      obtain ⟨l, rest⟩ := p
+      have hlt := cutLine_lt hc
+      rw [srvLoop_some h st false hc] at hw ⊢
+      cases hd : decodeLine l with
+      | msg m =>
+        rw [hd] at hw
+        simp only at hw ⊢
+        cases hres : (h st m).2 with
+        | raised => rw [hres] at hw; simp at hw
+        | reply r =>
+          rw [hres] at hw; simp only at hw ⊢
+          exact ih _ (by omega) (h st m).1 rest hw rfl
+        | silent =>
+          rw [hres] at hw; simp only at hw ⊢
+          exact ih _ (by omega) (h st m).1 rest hw rfl
+      | eos => rw [hd] at hw; simp at hw
+      | pending => rw [hd] at hw; simp at hw
+      | bad => rw [hd] at hw; simp at hw
+
+theorem srvFeed_dead (h : σ → Bytes → σ × HRes) (s : Srv σ) (hs : s.fin ≠ .waiting) (chunks : List Bytes) :
+    chunks.foldl (srvFeed h) s = { s with buf := s.buf ++ chunks.flatten } := by
+  induction chunks generalizing s with
+  | nil => simp
+  | cons x xs ih =>
+    have e : srvFeed h s x = { s with buf := s.buf ++ x } := by
+      unfold srvFeed; split
+      · rename_i hw; exact absurd hw hs
+      · rfl
+    rw [List.foldl_cons, e, ih _ (by simpa using hs)]
+    simp [List.append_assoc]
+
+theorem srvFeed_chunks (h : σ → Bytes → σ × HRes) (s : Srv σ) (hs : s.fin = .waiting) (hb : NL ∉ s.buf)
+    (chunks : List Bytes) :
+    chunks.foldl (srvFeed h) s = s.after (srvLoop h s.st (s.buf ++ chunks.flatten) false) := by
+  induction chunks generalizing s with
+  | nil =>
+    obtain ⟨st, buf, out, fin⟩ := s
+    simp only at hs hb; subst hs
+    simp [Srv.after, srvLoop_none h st false (cutLine_none_iff.mpr hb)]
+  | cons x xs ih =>
+    have e : srvFeed h s x = s.after (srvLoop h s.st (s.buf ++ x) false) := by
+      unfold srvFeed; rw [hs]; rfl
+    rw [List.foldl_cons, e, List.flatten_cons, ← List.append_assoc, srvLoop_append h s.st (s.buf ++ x) xs.flatten false]
+    by_cases hw : (srvLoop h s.st (s.buf ++ x) false).2.2.1 = .waiting
+    · rw [ih _ hw (srvLoop_waiting_left h _ _ hw)]; simp [Srv.after, hw, List.append_assoc]
+    · rw [srvFeed_dead h _ hw]; simp [Srv.after, hw]
+
 end Gallia.Lines
